@@ -2,7 +2,7 @@
 contracts (vt.monitors_markov) against a state-enumeration generator and a direct transition histogram."""
 import numpy as np
 
-from .. import monitors_markov
+from .. import gen, monitors_markov
 from ..drive import call
 from ..shard import Workload
 from ._common import arm_light
@@ -78,8 +78,11 @@ def w_slim(ctx, rng, idx):
         # a reduced model of the same system is built first with a coarse threshold (truncation effective: nothing is asserted on
         # it), then the exact one: what the coarse run leaves behind must not leak into the exact operator
         call('slim.slim_mme', slim.slim_mme, ss, single, two, prop=P, tags=['coarse_threshold_first'], threshold=float(10 ** rng.uniform(-3, -0.5)))
+    if rng.random() < 0.2:  # reactions as tuples / with NumPy scalars, the state space as tuple or integer array
+        single = [[tuple(r) if rng.random() < 0.5 else [np.int64(r[0]), np.int64(r[1]), np.float64(r[2])] for r in cell] for cell in single]
+        ss = [tuple(ss), np.array(ss), [np.int64(x) for x in ss]][int(rng.integers(0, 3))]
     call('slim.slim_mme', slim.slim_mme, ss, single, two, prop=P, tags=['cyclic' if cyc else 'open'], threshold=thr)
-    if rng.random() < 0.3:  # the same list objects again: other threshold, and the chain opened / closed by its owner
+    if rng.random() < 0.3 and isinstance(ss, list):  # the same list objects again: other threshold, and the chain opened / closed by its owner
         call('slim.slim_mme', slim.slim_mme, ss, single, two, prop=P, tags=['cyclic' if cyc else 'open', 'second_call'], threshold=1e-12 if thr == 0 else 0)
         if cyc:
             two.pop()
@@ -125,7 +128,10 @@ def w_ulam(ctx, rng, idx):
     tr = tr.astype([int, np.uint8, np.int32, np.int16, np.uint16][int(rng.integers(0, 5))])  # (the shipped tables are uint8)
     ctx.describe({'op': 'ulam_%dd' % k, 'states': states, 'simulations': sim, 'transitions': int(tr.shape[1])})
     fn = ulam.ulam_2d if k == 2 else ulam.ulam_3d
-    call('ulam.ulam_%dd' % k, fn, tr, states, sim, prop=P)
+    if rng.random() < 0.3:  # the table in another memory layout; grid sizes as tuple / integer array; NumPy integer simulation count
+        tr = gen.relayout_array(rng, tr)
+    states_arg = [states, tuple(states), np.array(states), [np.int64(x) for x in states]][int(rng.integers(0, 4))]
+    call('ulam.ulam_%dd' % k, fn, tr, states_arg, gen.as_int(rng, sim), prop=P)
     if idx < 2:
         ctx.sample({'workload': 'ulam', 'dim': k, 'states': states, 'simulations': sim, 'transitions': tr.T.tolist()[:12]})
 
